@@ -421,6 +421,10 @@ impl CompactionWorker {
                     new_level = compaction_manifest.level() + 1,
                     level_summary = db_fields_guard.version_set.level_summary()
                 );
+
+                // The input version was pinned when the compaction was picked. Release it so that
+                // it does not stay linked (and keep its files alive) forever.
+                compaction_manifest.release_inputs(&mut db_fields_guard.version_set);
             } else {
                 let compaction_result = CompactionWorker::compact_tables(
                     db_state,
